@@ -472,6 +472,29 @@ func ruleSeqhash(c *Ctx, prop string) {
 	checkRotateWindow(c, "TERM-CANON")
 }
 
+// checkComplementOracle: the complement table read by ComplementBase agrees with the IUPAC complement on every
+// letter (the bases of a complemented location are exactly what that table says).
+func checkComplementOracle(c *Ctx, rule string) { checkComplementOracleOn(c, rule, "") }
+
+// checkComplementOracleOn restricts the comparison to the given letters ("" = every letter of the oracle).
+func checkComplementOracleOn(c *Ctx, rule, letters string) {
+	comp, pos, ok := complementTable(c, rule)
+	if !ok {
+		return
+	}
+	var diffs []string
+	for k, v := range oracleComplement() {
+		if letters != "" && !strings.ContainsRune(letters, k) {
+			continue
+		}
+		if comp[k] != v {
+			diffs = append(diffs, fmt.Sprintf("%c->%c (want %c)", k, comp[k], v))
+		}
+	}
+	sort.Strings(diffs)
+	c.check(len(diffs) == 0, rule, "prerequisite C11: complement table = oracle", pos, "the complemented strand is read through the involutive IUPAC complement", strings.Join(diffs, "; "))
+}
+
 func parseOrNil(s string) *Term {
 	if t := parseTerm(s); t != nil {
 		return t
@@ -835,7 +858,7 @@ func checkRotateWindow(c *Ctx, rule string) {
 	}
 	c.useFn(f)
 	st := isRotateBody(f)
-	c.judge(st, rule, "RotateSequence = rotation of s at boothLeastRotation(s)", f.Pos(), "a length-len(s) window of the doubled string (or s[k:]+s[:k]): a rotation whenever it returns, also for the empty string", "RotateSequence does not return (s+s)[k:k+len(s)] / s[k:]+s[:k] with k = boothLeastRotation(s), or it does arithmetic that fails for the empty string (modulo by the length)")
+	c.judge(st, rule, "RotateSequence = rotation of s at boothLeastRotation(s)", f.Pos(), "a length-len(s) window of the doubled string (or s[k:]+s[:k]): a rotation whenever it returns, also for the empty string", "RotateSequence does not return (s+s)[k:k+len(s)] / s[k:]+s[:k] with k = boothLeastRotation(s), or it does arithmetic that fails for the empty string (modulo by the length), or a fast path hands back every string of some length >= 2 unrotated (\"TA\" is not its own least rotation)")
 }
 
 func ruleC12(c *Ctx) {
